@@ -9,9 +9,9 @@ git diff -- src > $OUT/patch.diff
 [ -s $OUT/patch.diff ] || { echo "no source change in $WT"; exit 2; }
 T=$(PYTHONPATH=$WT/src /venv/bin/python -m pytest -q -p no:cacheprovider --timeout=900 --continue-on-collection-errors 2>&1 | tail -1)
 PYTHONPATH=$WT/src /venv/bin/python seeded/demo.py > /dev/null 2>&1; WITH=$?
-git stash -q
+git apply -R $OUT/patch.diff        # (not git stash: the stash is shared between worktrees)
 PYTHONPATH=$WT/src /venv/bin/python seeded/demo.py > /dev/null 2>&1; WITHOUT=$?
-git stash pop -q
+git apply $OUT/patch.diff
 cp seeded/demo.py $OUT/ 2>/dev/null; cp seeded/meta.json $OUT/meta.agent.json 2>/dev/null
 echo "tests: $T | demo with change exit=$WITH, without exit=$WITHOUT"
 RES=""
